@@ -32,7 +32,7 @@ RULE = (
     "{first generation, stale}. distinct = by (scenario, size, k, mode) / history; non-trivial = the fault "
     "actually fired (child died or raised) / the history contained both a due and a not-due construction."
 )
-RULE += ' added since: histories run through four construction routes: Template(module_directory), Template(module_filename), TemplateLookup(module_directory), TemplateLookup(modulename_callable) without a module directory. a module file as an old code generator wrote it (magic number 5, module-level cache.Cache with the signature of that time).'
+RULE += " added since: histories run through four construction routes: Template(module_directory), Template(module_filename), TemplateLookup(module_directory), TemplateLookup(modulename_callable) without a module directory. a module file as an old code generator wrote it (magic number 5, module-level cache.Cache with the signature of that time). half of the histories render through a cached def with a backend honouring the template's start time."
 ASSUMPTIONS = [
     "'die' is process death with the kernel intact (os._exit); power-loss ordering cannot be observed from user space",
     "the injector counts exists/stat/makedirs/mkstemp/write/close/move/rename calls that concern the module directory",
@@ -53,14 +53,48 @@ def setup_worker():
 
     clock = vclock.install(vclock.Clock())
     _st.update(clock=clock, Template=mako.template.Template, MAGIC=codegen.MAGIC_NUMBER)
+    from mako import cache as mcache
+
+    class C15Rec(mcache.CacheImpl):
+        """keeps values with the (virtual) time they were stored at; like the stock backends it treats a value stored
+        before the template's own start time (the generation time of its module) as absent"""
+        store = {}
+
+        def get_or_create(self, key, creation_function, **kw):
+            k = (self.cache.id, key)
+            e = self.store.get(k)
+            if e is None or e[1] < self.cache.starttime:
+                e = (creation_function(), clock.now)
+                self.store[k] = e
+            return e[0]
+
+        def set(self, key, value, **kw):
+            self.store[(self.cache.id, key)] = (value, clock.now)
+
+        def get(self, key, **kw):
+            e = self.store.get((self.cache.id, key))
+            return None if e is None else e[0]
+
+        def invalidate(self, key, **kw):
+            self.store.pop((self.cache.id, key), None)
+
+    _st["C15Rec"] = C15Rec
+    globals()["C15RecHolder"] = C15Rec
+    try:
+        mcache.register_plugin("c15rec", __name__, "C15RecHolder")
+    except Exception:
+        pass
 
 
 def modpath(md, src):
     return os.path.abspath(os.path.join(md, os.path.normpath(src).lstrip("/") + ".py"))
 
 
-def body_for(version, big=False):
+def body_for(version, big=False, cached=False):
     s = "SRC#%d" % version
+    if cached:
+        # the text comes out of a cached def: after a rewrite of the module it must be the NEW text all the same
+        s = '<%%def name="c_()" cached="True">SRC#%d</%%def>${c_()}' % version
     if big:
         s += "\n" + "\n".join("line %d of filler ${%d}" % (i, i) for i in range(1500))
     return s
@@ -77,13 +111,17 @@ def shown_version(out):
 VIAS = ["template-moddir", "template-modfile", "lookup-moddir", "lookup-callable"]
 
 
-def run_hist(ops, res, rc, via="template-moddir"):
+def run_hist(ops, res, rc, via="template-moddir", cached=None):
     """via: how the Template comes to life - constructed directly (module_directory / module_filename) or by a fresh
     TemplateLookup (module_directory / modulename_callable WITHOUT a module directory); the rules are the same"""
     base = tempfile.mkdtemp(prefix="c15h-")
     clock = _st["clock"]
     T = _st["Template"]
-    rc = dict(rc, via=via)
+    if cached is None:
+        cached = rc.get("cached", (len(ops) + sum(map(len, ops))) % 2 == 0)
+    rc = dict(rc, via=via, cached=cached)
+    ckw = {"cache_impl": "c15rec"} if cached else {}
+    _st["C15Rec"].store.clear()
     try:
         src = os.path.join(base, "t.html")
         md = os.path.join(base, "mods")
@@ -99,19 +137,19 @@ def run_hist(ops, res, rc, via="template-moddir"):
 
         def construct(writer):
             if via == "template-moddir":
-                return T(filename=src, module_directory=md, module_writer=writer)
+                return T(filename=src, module_directory=md, module_writer=writer, **ckw)
             if via == "template-modfile":
-                return T(filename=src, module_filename=mp, module_writer=writer)
+                return T(filename=src, module_filename=mp, module_writer=writer, **ckw)
             from mako.lookup import TemplateLookup
             if via == "lookup-moddir":
-                lk = TemplateLookup(directories=[base], module_directory=md, module_writer=writer)
+                lk = TemplateLookup(directories=[base], module_directory=md, module_writer=writer, **ckw)
             else:
-                lk = TemplateLookup(directories=[base], modulename_callable=lambda filename, uri: mp, module_writer=writer)
+                lk = TemplateLookup(directories=[base], modulename_callable=lambda filename, uri: mp, module_writer=writer, **ckw)
             return lk.get_template("/t.html")
         ver = 1
         clock.now = CLOCK0
         with open(src, "w") as f:
-            f.write(body_for(ver))
+            f.write(body_for(ver, cached=cached))
         os.utime(src, (clock.now, clock.now))
         S = {"version": ver, "mtime": clock.now}
         M = None  # dict(frm, mtime, magic_ok)
@@ -124,7 +162,7 @@ def run_hist(ops, res, rc, via="template-moddir"):
                 ref = M["mtime"] if M else clock.now
                 mt = {"src-newer": ref + 1, "src-equal": ref, "src-older": ref - 1}[op]
                 with open(src, "w") as f:
-                    f.write(body_for(ver))
+                    f.write(body_for(ver, cached=cached))
                 os.utime(src, (mt, mt))
                 S = {"version": ver, "mtime": mt}
             elif op == "delete-module":
